@@ -68,8 +68,10 @@ type Tunnel struct {
 	sock   knxnet.Socket
 	config TunnelConfig
 
-	// Connection information
+	// Connection information; channel and control are written by the worker goroutine on every
+	// (re)connect and read by Close and by heartbeat goroutines, hence the mutex.
 	layer   knxnet.TunnelLayer
+	connMu  sync.Mutex
 	channel uint8
 	control knxnet.HostInfo
 
@@ -118,12 +120,14 @@ func (conn *Tunnel) requestConn() (err error) {
 		return err
 	}
 
+	conn.connMu.Lock()
 	conn.control = hostInfo
+	conn.connMu.Unlock()
 
 	req := &knxnet.ConnReq{
 		Layer:   conn.layer,
-		Control: conn.control,
-		Tunnel:  conn.control,
+		Control: hostInfo,
+		Tunnel:  hostInfo,
 	}
 
 	// Send the initial request.
@@ -167,7 +171,9 @@ func (conn *Tunnel) requestConn() (err error) {
 					// The channel and the sequence number belong together: a sender must never
 					// combine the new channel with the previous connection's sequence number.
 					conn.seqMu.Lock()
+					conn.connMu.Lock()
 					conn.channel = res.Channel
+					conn.connMu.Unlock()
 					conn.seqNumber = 0
 					conn.seqMu.Unlock()
 
@@ -191,7 +197,9 @@ func (conn *Tunnel) requestConn() (err error) {
 func (conn *Tunnel) requestConnState(
 	heartbeat <-chan knxnet.ErrCode,
 ) (knxnet.ErrCode, error) {
+	conn.connMu.Lock()
 	req := &knxnet.ConnStateReq{Channel: conn.channel, Status: 0, Control: conn.control}
+	conn.connMu.Unlock()
 
 	// Send first connection state request
 	err := conn.sock.Send(req)
@@ -232,11 +240,15 @@ func (conn *Tunnel) requestConnState(
 
 // requestDisc sends a disconnect request to the gateway.
 func (conn *Tunnel) requestDisc() error {
-	return conn.sock.Send(&knxnet.DiscReq{
+	conn.connMu.Lock()
+	req := &knxnet.DiscReq{
 		Channel: conn.channel,
 		Status:  0,
 		Control: conn.control,
-	})
+	}
+	conn.connMu.Unlock()
+
+	return conn.sock.Send(req)
 }
 
 // requestTunnel sends a tunnel request to the gateway and waits for an appropriate acknowledgement.
